@@ -78,8 +78,11 @@ def ref_lang(path, lang_globs):
     base = path.rsplit("/", 1)[-1]
     by_glob = sorted({l for l, gs in (lang_globs or {}).items() if any(name_glob_match(g, base) for g in gs)})
     by_ext = ext_lang(path)
-    if len(by_glob) > 1 or (by_glob and by_ext and by_glob[0] != by_ext):
-        raise ValueError("statement is silent: two languages claim " + path)   # alphabet guard
+    if len(by_glob) > 1:
+        raise ValueError("statement is silent: two languageGlobs entries claim " + path)   # alphabet guard
+    # a configured language glob overrides the built-in extension table (documented purpose of
+    # languageGlobs: "overrides the default language parser"; code comment in SgLang::from_path:
+    # "respect user overriding like languageGlobs")
     return by_glob[0] if by_glob else by_ext
 
 
@@ -356,7 +359,9 @@ def sev_assignments(tier, which):
 
 
 LANG_GLOBS = [None, {"js": ["*.txt"]}, {"js": ["noext"]}, {"py": ["*.txt"]}, {"ts": ["noext"]},
-              {"js": ["*.txt", "noext"]}, {"py": ["*.txt"], "ts": ["noext"]}]
+              {"js": ["*.txt", "noext"]}, {"py": ["*.txt"], "ts": ["noext"]},
+              # globs that re-assign an extension a built-in language owns
+              {"ts": ["*.js"]}, {"js": ["*.py"], "py": ["*.ts"]}]
 
 
 def langglob_rule_sets():
@@ -541,12 +546,11 @@ def main(argv):
             "(layout, language, combination) occurs exactly once); A2) same for three js rules sharing files on the full layout; "
             "B1) all 5^3 own severities x {full, test/ only}; B2) complete override alphabet (none; 1 id->1 flag; 2 ids->any 2 flags; bare flag; "
             "bare + per-id on a different flag; 6 --filter regexes alone / with --error / with --off=r1) x own-severity assignments "
-            "(quick: 2 fixed; thorough: the 25 assignments (s1, s2, SEVS[(i1+i2)%5]), i.e. every pair of rules sees all 25 severity pairs); C) 7 languageGlobs settings x 36 rule sets x layouts (quick: full; thorough: full, ext=txt, ext=none); "
+            "(quick: 2 fixed; thorough: the 25 assignments (s1, s2, SEVS[(i1+i2)%5]), i.e. every pair of rules sees all 25 severity pairs); C) 9 languageGlobs settings (two of them re-assign an extension owned by a built-in language: the glob wins) x 36 rule sets x layouts (quick: full; thorough: full, ext=txt, ext=none); "
             "D) {no path, `.`} x every layout x {none, --error, --off=r1}. Every source file holds `foo(1)` and every rule is `foo($A)`, so 'rule applied "
             "to file' <=> >= 1 finding (file, ruleId). Non-trivial case = the reference expects >= 1 applied (file, rule) pair AND >= 1 pair excluded by a "
             "rule-side clause (language mismatch, files, ignores, off, filter). Out of the alphabet (statement silent): one id on two different flags, two "
-            "bare flags, --filter matching no rule, regexes whose search/full-match differ, globs where `*` crossing `/` would matter, languageGlobs that "
-            "contradict the extension table."),
+            "bare flags, --filter matching no rule, regexes whose search/full-match differ, globs where `*` crossing `/` would matter, a file claimed by two languageGlobs entries."),
         "samples": samples[:8],
     }
     assumptions = [
